@@ -155,12 +155,13 @@ def layout : Field → Layout
   | .vplsBase => label 1
   | .flowProtocol | .flowNextHeader | .flowIcmpType | .flowIcmpCode | .flowTrafficClass => uint 1
   | .flowPort | .flowDstPort | .flowSrcPort | .flowPacketLength => uint 2
-  | .flowTcpFlags | .flowFragment => uint 2
+  | .flowTcpFlags => uint 2
+  | .flowFragment => uint 1  -- RFC 8955 4.2.2.12: the bitmask MUST be encoded as a single octet
   | .flowDscp => bounded 1 64
   | .flowLabel => bounded 4 1048576
   | .flowMask4 => bounded 1 33
   | .flowMask6 => bounded 1 129
-  | .flowOffset6 => bounded 1 129
+  | .flowOffset6 => bounded 1 128  -- RFC 8956 3.1: the offset is below the length (swept with length 128)
   | .redirectAdmin => uint 4
   | .redirectLocalA16 => uint 4
   | .redirectLocalA32 => uint 2
@@ -223,11 +224,13 @@ def rfcLimit : Field → Nat
   | .rdAssignedA32 | .rdAssignedIp => 65536
   | .pathInfo => 4294967296
   | .mask4 | .flowMask4 => 33
-  | .mask6 | .flowMask6 | .flowOffset6 => 129
+  | .mask6 | .flowMask6 => 129
+  | .flowOffset6 => 128
   | .vplsEndpoint | .vplsOffset | .vplsSize => 65536
   | .flowProtocol | .flowNextHeader | .flowIcmpType | .flowIcmpCode | .flowTrafficClass => 256
   | .flowPort | .flowDstPort | .flowSrcPort | .flowPacketLength => 65536
-  | .flowTcpFlags | .flowFragment => 65536
+  | .flowTcpFlags => 65536
+  | .flowFragment => 256
   | .flowDscp | .markDscp => 64
   | .flowLabel => 1048576
   | .redirectAdmin | .redirectLocalA16 => 4294967296
